@@ -2,9 +2,9 @@
 """Confirms sub-agent seeded changes independently and runs the checks against them.
 
   tools/seeded.py confirm /tmp/seed-out/C01/A [...]   # scratch-worktree confirmation + copy to /verif/seeded/<id>-<variant>/
-  tools/seeded.py run [name ...] [--tier quick] [--also C05,C07]   # apply each kept patch to /repo, run the property's check, undo
+  tools/seeded.py run [name ...] [--tier quick] [--also C05,C07] [-j 3]   # apply each kept patch to a scratch worktree, run the property's check against it (VERIF_ALT_REPO), remove it
 
-Nothing is ever committed to /repo; every patch is undone with `git checkout -- .` straight after the run."""
+Nothing is ever applied to or committed in /repo; every scratch worktree is removed straight after its run."""
 import json, os, re, shutil, subprocess, sys, time
 
 REPO, VERIF = "/repo", "/verif"
@@ -83,37 +83,69 @@ def confirm(src):
     return log["confirmed"]
 
 
-def run(names, tier, also):
-    rc, out = sh("git -C %s status --porcelain --untracked-files=no" % REPO)
-    assert out.strip() == "", "repo not clean: " + out
+def run_one(name, tier, also):
+    """Applies one kept patch to a scratch worktree of /repo (never to /repo itself), runs the property's check
+    against that worktree (VERIF_ALT_REPO) and removes the worktree and its build output."""
+    d = os.path.join(VERIF, "seeded", name)
+    mp = os.path.join(d, "meta.json")
+    meta = json.load(open(mp))
+    props = [meta["property"]] + [a for a in also if a != meta["property"]]
+    wt = "/tmp/seedrun-" + name
+    sh("git -C %s worktree remove --force %s" % (REPO, wt))
+    rc, out = sh("git -C %s worktree add -q --detach %s HEAD" % (REPO, wt))
+    lines = []
+    try:
+        rc, out = sh("git apply %s/patch.diff" % d, cwd=wt)
+        if rc != 0:
+            return ["%-8s PATCH-DOES-NOT-APPLY" % name]
+        env = dict(ENV, VERIF_ALT_REPO=wt)
+        for p in props:
+            t0 = time.time()
+            pr = subprocess.run("./check %s --tier %s" % (p, tier), shell=True, cwd=SNAP, env=env, stdout=subprocess.PIPE, stderr=subprocess.STDOUT, text=True, timeout=14400)
+            rc, out = pr.returncode, pr.stdout
+            verdict = {0: "MISSED", 1: "CAUGHT", 2: "INCONCLUSIVE"}.get(rc, "rc=%d" % rc)
+            sig = ""
+            m = re.search(r"signature=(.*)", out)
+            if m:
+                sig = m.group(1)[:100]
+            meta.setdefault("checks", {})["%s/%s" % (p, tier)] = {"verdict": verdict, "signature": sig, "seconds": round(time.time() - t0, 1)}
+            lines.append("%-8s %s/%-8s %-12s %6.1fs %s" % (name, p, tier, verdict, time.time() - t0, sig))
+            if verdict == "INCONCLUSIVE":
+                lines.append(out[-1500:])
+    finally:
+        sh("git -C %s worktree remove --force %s" % (REPO, wt))
+        import hashlib
+        shutil.rmtree(os.path.join(SNAP, ".build", "alt-" + hashlib.sha1(wt.encode()).hexdigest()[:10]), ignore_errors=True)
+    json.dump(meta, open(mp, "w"), indent=1)
+    return lines
+
+
+SNAP = None  # frozen copy of /verif the batch runs from, so that editing /verif meanwhile does not disturb it
+
+
+def snapshot():
+    global SNAP
+    SNAP = "/tmp/verif-snap-%d" % os.getpid()
+    shutil.rmtree(SNAP, ignore_errors=True)
+    rc, out = sh("rsync -a --exclude .git --exclude .build --exclude replays --exclude seeded %s/ %s/" % (VERIF, SNAP))
+    assert rc == 0, out
+
+
+def run(names, tier, also, par=3):
+    from concurrent.futures import ThreadPoolExecutor
+    snapshot()
     root = os.path.join(VERIF, "seeded")
+    todo = []
     for name in sorted(os.listdir(root)):
         if names and name not in names and name.split("-")[0] not in names:
             continue
-        d = os.path.join(root, name)
-        mp = os.path.join(d, "meta.json")
-        if not os.path.exists(mp):
-            continue
-        meta = json.load(open(mp))
-        props = [meta["property"]] + [a for a in also if a != meta["property"]]
-        rc, out = sh("git -C %s apply %s/patch.diff" % (REPO, d))
-        if rc != 0:
-            print("%-8s PATCH-DOES-NOT-APPLY" % name)
-            continue
-        try:
-            for p in props:
-                t0 = time.time()
-                rc, out = sh("./check %s --tier %s" % (p, tier), cwd=VERIF, timeout=14400)
-                verdict = {0: "MISSED", 1: "CAUGHT", 2: "INCONCLUSIVE"}.get(rc, "rc=%d" % rc)
-                sig = ""
-                m = re.search(r"signature=(.*)", out)
-                if m:
-                    sig = m.group(1)[:100]
-                meta.setdefault("checks", {})["%s/%s" % (p, tier)] = {"verdict": verdict, "signature": sig, "seconds": round(time.time() - t0, 1)}
-                print("%-8s %s/%-8s %-12s %6.1fs %s" % (name, p, tier, verdict, time.time() - t0, sig), flush=True)
-        finally:
-            sh("git -C %s checkout -- ." % REPO)
-        json.dump(meta, open(mp, "w"), indent=1)
+        if os.path.exists(os.path.join(root, name, "meta.json")):
+            todo.append(name)
+    with ThreadPoolExecutor(max_workers=par) as ex:
+        for lines in ex.map(lambda n: run_one(n, tier, also), todo):
+            for ln in lines:
+                print(ln, flush=True)
+    shutil.rmtree(SNAP, ignore_errors=True)
 
 
 if __name__ == "__main__":
@@ -122,15 +154,17 @@ if __name__ == "__main__":
         for s in a[1:]:
             confirm(s)
     elif a and a[0] == "run":
-        tier, also, names = "quick", [], []
+        tier, also, names, par = "quick", [], [], 3
         i = 1
         while i < len(a):
             if a[i] == "--tier":
                 tier = a[i + 1]; i += 2
+            elif a[i] == "-j":
+                par = int(a[i + 1]); i += 2
             elif a[i] == "--also":
                 also = a[i + 1].split(","); i += 2
             else:
                 names.append(a[i]); i += 1
-        run(names, tier, also)
+        run(names, tier, also, par)
     else:
         print(__doc__)
